@@ -182,3 +182,48 @@ def depth : Nat → Obj → Bool   -- `depth f o`: the tree below `o` has fewer 
   | f+1, o => (objKids o).all (depth f)
 
 end NmlVerif.Schema
+
+namespace NmlVerif.Schema
+open NmlVerif.Binding
+
+/-! ### content models built from `sequence`s of element particles -/
+
+def XElem.okCount (p : XElem) (n : Nat) : Bool :=
+  decide (p.lo ≤ n) && (match p.hi with | none => true | some h => decide (n ≤ h))
+
+/-- executable matcher for a `sequence` of element particles (what is compared with libxml2's verdicts): consume
+    the maximal run of the current tag, check its occurrence range, continue -/
+def matchSeq : List XElem → List Nat → Bool
+  | [], w => w.isEmpty
+  | p :: ps, w =>
+    let n := (w.takeWhile (· == p.tag)).length
+    p.okCount n && matchSeq ps (w.drop n)
+
+/-- all element particles of a type, base types first (`extension` = base content followed by own content) -/
+def fullElems (X : Xsd) : Nat → Nat → List XElem
+  | 0, _ => []
+  | f+1, c =>
+    match findType X c with
+    | none => []
+    | some x => (match x.base with | some b => fullElems X f b | none => []) ++ x.elems
+
+/-- the whole content model of the type is a sequence of element particles (no choice, no wildcard) along the
+    extension chain; `all` groups are accepted too (member-grouped export writes each at most once, in order) -/
+def seqShaped (X : Xsd) : Nat → Nat → Bool
+  | 0, _ => false
+  | f+1, c =>
+    match findType X c with
+    | none => false
+    | some x => !x.hasAny && x.elems.all (fun e => !e.inChoice)
+                && (match x.base with | some b => seqShaped X f b | none => true)
+
+/-- every class writes its children (inherited ones first) under the tags and in the order of the schema's
+    particles, and those tags are pairwise distinct -/
+def contentOrderAgrees (T : Table) (X : Xsd) : Bool :=
+  T.all fun k =>
+    match flatten T k.name with
+    | some f => f.kids.map (·.tag) == (fullElems X X.length k.name).map (·.tag)
+                && nodupNat (f.kids.map (·.tag))
+    | none => false
+
+end NmlVerif.Schema
